@@ -15,6 +15,9 @@ theorem prefix_all {P : Value → Prop} {b b' : Builder} (h : BuilderAll P b) (p
   split at hr
   · cases hr
   · rename_i us hus
+    split at hr
+    · cases hr
+    rename_i hres
     dsimp only at hr
     split at hr
     · cases hr
@@ -24,6 +27,7 @@ theorem prefix_all {P : Value → Prop} {b b' : Builder} (h : BuilderAll P b) (p
       · simp only [Step.ok.injEq] at hr
         subst hr
         rw [hus]
+        simp only [hres, if_false]
         refine ⟨h.cur.imp (fun _ => Or.inl), fun f hf => (h.parents f hf).imp (fun _ => Or.inl), ?_⟩
         intro eb' he d hd
         simp only [Option.some.injEq] at he
@@ -41,7 +45,7 @@ theorem processingInstruction_all {P : Value → Prop} {b : Builder} (h : Builde
   have h1 : BuilderAll (fun v => P v ∨ IssuedBy b.env [.name target.text Env.noNamespace] v)
       ({ b with env := (b.env.internName target.text Env.noNamespace).1 } : Builder) :=
     (h.imp (fun _ => Or.inl)).congr rfl rfl (fun eb' he => Or.inr ⟨eb', he, rfl⟩)
-  refine (addLeaf_all h1 (v := .pi (b.env.internName target.text Env.noNamespace).2 (content.map (fun c => c.text)))
+  refine (addLeaf_all h1 (v := .pi (b.env.internName target.text Env.noNamespace).2 (content.map (fun c => normalizeLineEnds c.text)))
     (Or.inr ⟨0, target.text, Env.noNamespace, rfl, rfl⟩)).congr rfl rfl (fun eb' he => Or.inr ⟨eb', he, rfl⟩)
 
 /-! ### `open_element` -/
@@ -195,8 +199,13 @@ theorem step_all {P : Value → Prop} (hT : ∀ s, P (.text s)) (hC : ∀ s, P (
     subst hr
     exact (comment_all hC h t).imp (fun _ => Or.inl)
   | pi target content sp =>
-    simp only [Builder.step, Step.ok.injEq] at hr
+    simp only [Builder.step] at hr
+    split at hr
+    · cases hr
+    rename_i hres
+    simp only [Step.ok.injEq] at hr
     subst hr
+    simp only [Builder.stepRegs, hres, if_false]
     exact processingInstruction_all h target content
   | declaration version enc sa sp =>
     simp only [Builder.step] at hr
